@@ -78,6 +78,25 @@ DET = {
  "C15-4": (["C15 quick"], "C15/list-differs-from-rule", False, "round 3. no '/**' companion for patterns ending in '**' glued to a name: same generator extension"),
  "C17-3": (["C17 quick (probe many-hunks, two backups)"], "C17/content-differs/hunk/probe-many-hunks", False, "round 3. index sub-directories listed in completion order, visible when a > 10 000-hunk band is the basis of the next backup: the probe now makes a second, incremental backup"),
  "C17-4": (["C17 quick (probe wall-clock)", "C14 quick"], "C17/file-set-differs/probe-wall-clock", False, "round 3. files with an mtime ahead of the clock are always re-stored: the archive depends on the time of day. New probe: the same two backups replayed two seconds before and one second after the mtime of one file"),
+ # ---- fourth round (adversarial prompt again, C01-C09; the agents knew from the commit log that scale probes exist)
+ "C01-5": (["C01 quick (scale probe many-hunks)"], "C01/restore-error/probe-many-hunks", True, "round 4. hunk file name taken modulo 10 000 inside its sub-directory: caught by the existing probe"),
+ "C01-6": (["C01 quick"], "C01/restore-diff/content", True, "round 4. restore gathers small parts and writes only the first 128 KiB of a gathered buffer: needs a file > 128 KiB stored in blocks that do not divide 128 KiB; the generator's rare 20-300 KB files with small blocks reach it"),
+ "C02-5": (["C01 quick (probe huge-blocks)", "C02 quick (probe huge-blocks)"], "C02/version/restore-error/probe-huge-blocks", False, "round 4. decompression limit lowered from the format's 1 GiB to 32 MiB while the block size is a setting: needs a stored object over 32 MiB. New fixed probe in C01 and C02: single blocks of 40 MiB and 33 MiB+1 written with a 64 MiB block size (C02: carried over into a second version). An index hunk over 32 MiB (100 000 entries with long paths) stays out of reach"),
+ "C02-6": (["C02 quick"], "C02/version/restore-diff/content", False, "round 4. a basis mtime without fractional part is compared to the second: needs a rewrite of equal length landing in the same second as a whole-second mtime. The model's edits chose new mtimes independently (seconds apart); new edit kind Nudge = same length, new content, old mtime + 1 ns .. 1 s; shrunk case in corpus/C02"),
+ "C03-5": (["C03 quick (probe huge-file)", "C11 quick (probe huge-file)"], "C03/interrupted-band-not-a-prefix-of-source/probe-huge-file", False, "round 4. after a file >= 256 MiB the index hunk is written while small files are still queued for a combined block: needs a file of that absolute size. New fixed probe (one 272 MiB file between small ones) in C01, C03 (killed before the last block write) and C11 (written index order); absolute-size thresholds above that stay out of reach"),
+ "C03-6": (["C03 quick", "C08 quick"], "C03/interrupted-version-listing", False, "round 4. stitching stops at an older band that cannot be opened instead of skipping it: needs a band directory without head below an interrupted band. Scenarios now end (27%) with a backup killed just before / while writing its BANDHEAD, and interrupted backups of histories stop at operation 0-3 a quarter of the time; shrunk case in corpus/C03"),
+ "C04-5": (["C04 quick"], "C04/existing-file-removed", True, "round 4. clean-up remove_file after any failed block write, also AlreadyExists from a leftover"),
+ "C04-6": (["C04 quick"], "C04/dangling-reference", False, "round 4. a block write failing with Other is retried and AlreadyExists on the retry is taken as success: needs exactly that pair of errors on adjacent operations. C04 now enumerates, for (a thinned set of) every write of the trace, all 16 ordered pairs of error kinds on that operation and the next one"),
+ "C05-5": (["C05 quick (scale probe many-hunks)"], "C05/referenced-block-removed/probe-many-hunks", True, "round 4. reference scan walks sub-directories 0..count by position with hunk numbers taken relative: caught by the existing probe"),
+ "C05-6": (["C05 quick"], "C05/after-failed-removal/other/kept-version/restore-error", False, "round 4. a failing removal of a version directory is counted and the blocks are deleted all the same: needs a failing remove_dir_all. C05 injected errors into reads/lists/metadata only; it now also fails (a thinned set of) the mutating operations of the delete; shrunk case in corpus/C05"),
+ "C06-5": (["C06 quick"], "C06/complete-version-names-removed-block/new-version/with-storage-error", False, "round 4. unwrap_or(true) on the collector's look at the newest BANDTAIL: needs a live backup AND one transient error on exactly that metadata call. The scheduler can now fail the n-th operation of an actor; C06 adds runs with one error in each of the collector's first 8 operations (and a few later reads) while the backup is paused at a critical point, and errors in the backup's lock tests; corpus/C06"),
+ "C06-6": (["C06 quick"], "C06/complete-version-names-removed-block/new-version", False, "round 4. break_lock rewritten to take the lock over in place, losing the refusal while the newest band is incomplete: needs break_lock = true, which C06 never passed. 35% of the cases now run the delete/gc with break_lock (15% with a stale GC_LOCK present); corpus/C06"),
+ "C07-5": (["C07 quick"], "C07/race/backup-removes/with-storage-error", False, "round 4. after a failed block write (not AlreadyExists) a non-empty file of that name is removed, also when the other backup wrote it: needs two racing backups with shared new content and an injected error. C07's races now add runs in which one block write of one racer fails while the other racer ran in between; corpus/C07"),
+ "C07-6": (["C07 quick"], "C07/gc-race/removed-foreign-lock", False, "round 4. the lock guard is marked held before its CreateNew write succeeded, so the loser of two collectors removes the winner's lock: needs two deletes racing, which nothing ran. New case kind GcRace: two deletes/gcs under the scheduler (<=2 switches over lock/list/mutating points + random), oracle from the trace: removals only while holding the lock, only the own lock file, one holder at a time, kept versions intact; corpus/C07"),
+ "C08-5": (["C08 quick (scale probe many-hunks)"], "C08/listing-differs-from-stitching-rule/probe-many-hunks", True, "round 4. sub-directory names rebuilt from parsed numbers (hunk number used as sub-directory number): caught by the existing probe"),
+ "C08-6": (["C08 quick"], "C08/listing-differs-from-stitching-rule/incomplete-straddling", False, "round 4. binary-search jump ahead over >= 64 remaining hunks of the older band is off by one: needs an older band with that many hunks. A tenth of C08's generated archives are now wide (100-250 paths, mostly one entry per hunk, interrupted bands cut at a generated point); corpus/C08"),
+ "C09-5": (["C09 quick (probe many-blocks)"], "C09/damage-not-reported/full/block/garbage/probe-many-blocks", False, "round 4. validate joins block reads in batches of 10 000 and drops the errors of full batches: needs > 10 000 blocks. The many-blocks probe grew from 3000 to 13 000 blocks (damaged: first, 1/3, 1/2, last in name order)"),
+ "C09-6": (["C09 quick (scale probe many-hunks)"], "C09/healthy-archive-reported/probe-many-hunks", True, "round 4. new layout check flags hunk 9 999 as misplaced: caught by the existing probe"),
 }
 
 for d in sorted(glob.glob("/verif/seeded/C*-*")):
